@@ -293,15 +293,71 @@ type invRec struct {
 
 // manyRec is one Func.Many call; appended under the log mutex.
 type manyRec struct {
-	ID       int
-	Fn       int
-	Args     []interface{}
-	Outcome  int
-	startSeq int64
-	endSeq   int64 // tick before returning / panicking
-	err      error
-	mutated  bool
-	ctxErr   error
+	ID        int
+	Fn        int
+	Args      []interface{}
+	Outcome   int
+	startSeq  int64
+	endSeq    int64 // tick before returning / panicking
+	err       error
+	mutated   bool
+	ctxErr    error
+	panicKind string
+}
+
+// values Func.Many panics with: many dynamic types, and panics raised by the
+// runtime itself.
+var panicKinds = []string{"string", "error", "custom-error-type", "int", "struct", "pointer", "stringer", "nil", "runtime:nil-map-write", "runtime:index-out-of-range", "runtime:nil-dereference", "slice", "func"}
+
+type manyPanicErr struct{ id int }
+
+func (e manyPanicErr) Error() string { return fmt.Sprintf("many call %d panics (custom error)", e.id) }
+
+type manyPanicStruct struct {
+	ID   int
+	What string
+}
+
+type manyPanicStringer int
+
+func (s manyPanicStringer) String() string {
+	return fmt.Sprintf("many call %d panics (stringer)", int(s))
+}
+
+func raisePanic(kind string, id int) {
+	switch kind {
+	case "string":
+		panic(fmt.Sprintf("many call %d panics", id))
+	case "error":
+		panic(fmt.Errorf("many call %d panics (error)", id))
+	case "custom-error-type":
+		panic(manyPanicErr{id})
+	case "int":
+		panic(id + 1)
+	case "struct":
+		panic(manyPanicStruct{id, "panics"})
+	case "pointer":
+		panic(&manyPanicStruct{id, "panics"})
+	case "stringer":
+		panic(manyPanicStringer(id))
+	case "nil":
+		var v interface{}
+		panic(v)
+	case "runtime:nil-map-write":
+		var mp map[int]int
+		mp[id] = 1
+	case "runtime:index-out-of-range":
+		var sl []int
+		_ = sl[id+1]
+	case "runtime:nil-dereference":
+		var ps *manyPanicStruct
+		_ = ps.ID
+	case "slice":
+		panic([]int{id})
+	case "func":
+		panic(func() {})
+	}
+	panic("unreachable panic kind " + kind)
 }
 
 type mon struct {
@@ -389,8 +445,9 @@ func (m *mon) makeFunc(idx int, cfg fnCfg) *fnState {
 			err = fmt.Errorf("many call %d failed with results", rec.ID)
 		case outPanic:
 			err = nil
+			rec.panicKind = panicKinds[(int(k)*7+rec.ID)%len(panicKinds)]
 			finish()
-			panic(fmt.Sprintf("many call %d panics", rec.ID))
+			raisePanic(rec.panicKind, rec.ID)
 		case outShort:
 			res = full()
 			res = res[:len(res)-1]
@@ -628,7 +685,7 @@ func manyLog(manys []*manyRec) []string {
 				as = append(as, fmt.Sprintf("?%v", a))
 			}
 		}
-		out = append(out, fmt.Sprintf("#%d fn%d %s [%s] start@%d end@%d", mr.ID, mr.Fn, outNames[mr.Outcome], strings.Join(as, " "), mr.startSeq, mr.endSeq))
+		out = append(out, fmt.Sprintf("#%d fn%d %s%s [%s] start@%d end@%d", mr.ID, mr.Fn, outNames[mr.Outcome], map[bool]string{true: "(" + mr.panicKind + ")"}[mr.panicKind != ""], strings.Join(as, " "), mr.startSeq, mr.endSeq))
 	}
 	return out
 }
@@ -858,6 +915,9 @@ func oracle(sc scenario, rounds []*roundLog, manys []*manyRec) (string, bool, ma
 					bad("Invoke returned a result together with an error", "arg", id, "result", fmt.Sprint(rec.res))
 				}
 			case outPanic, outShort, outLong:
+				if mr.Outcome == outPanic {
+					feats["many_panic_value:"+mr.panicKind]++
+				}
 				feats["invoke:many_"+outNames[mr.Outcome]]++
 				if rec.err == nil {
 					bad("Invoke returned no error although the Many call containing its argument "+outNames[mr.Outcome]+" (panic / wrong number of results)", "arg", id, "call", mr.ID, "result", fmt.Sprint(rec.res))
@@ -908,7 +968,7 @@ func oracle(sc scenario, rounds []*roundLog, manys []*manyRec) (string, bool, ma
 func TestCheck(t *testing.T) {
 	run := vlib.Start(t, "C05", "exploration")
 	defer run.Finish()
-	run.Rule("seeded scenarios on the real batch.Func: 1..3 Funcs on one batching context (MaxSize in {0,1,2,3,7}, WaitInterval 0.2-2 ms, MaxDuration 1-5 ms, 1..4 shards, Shard func nil or set, shard values either ints or values of different dynamic types / distinct pointers with the same %v rendering (orgID(b), deviceID(b), int b, string b, int64(b), two &shardPoint{b}, uint8(b)), per-call Many outcome from {ok, error, error+results, panic, short, long, slow, slow-until-cancel}), " +
+	run.Rule("seeded scenarios on the real batch.Func: 1..3 Funcs on one batching context (MaxSize in {0,1,2,3,7}, WaitInterval 0.2-2 ms, MaxDuration 1-5 ms, 1..4 shards, Shard func nil or set, shard values either ints or values of different dynamic types / distinct pointers with the same %v rendering (orgID(b), deviceID(b), int b, string b, int64(b), two &shardPoint{b}, uint8(b)), per-call Many outcome from {ok, error, error+results, panic (with a value that is a string, error, custom error type, int, struct, pointer, Stringer, slice, func, nil, or raised by the runtime: nil map write, index out of range, nil dereference), short, long, slow, slow-until-cancel}), " +
 		"1..3 back-to-back rounds of 1..64 callers (1..3 sequential Invokes each) started in bursts placed at 0, 0.5/0.9/1/1.1/2 x WaitInterval and 0.9/1/1.1 x MaxDuration, round context cancelled never / before / during / after, " +
 		"with or without concurrencylimiter.With(ctx,1..3) and an Acquire around every Invoke, random yields at the batch.* and limiter.* hooks. In half of the rounds all callers share the round's cancellable context; in the other half callers use own contexts derived from it (live, cancelled at a seeded time, or - in half of those rounds - cancelled by the harness at the moment a Many call whose first argument is theirs, i.e. whose group they created, is entered, with Many outcomes biased to slow-until-cancel). " +
 		"Non-trivial = the log shows a MaxSize roll-over (a full batch followed by another batch of the same Func/shard in the round), a late joiner (Invoke called after a Many call of its Func/shard had started, and dispatched in a later call) or a cancellation while Invokes were outstanding; " +
